@@ -334,7 +334,8 @@ static std::string v6_text_variant(Src& s, const Bytes& b) {
 }
 
 static std::string mutate_text(Src& s, std::string t) {
-    static const char ALPH[] = "0123456789abcdefABCDEFgGxz:.%/ -+,;[]";
+    // printable look-alikes plus control / high bytes (a parser that folds case or masks bits must not let them through)
+    static const char ALPH[] = "0123456789abcdefABCDEFgGxz:.%/ -+,;[]@`{}\x01\x10\x11\x15\x19\x1a\x1f\x7f\x80\x90\xb0\xe6\xff";
     unsigned nm = (unsigned)s.weighted({3, 5, 2, 1});
     for (unsigned m = 0; m < nm; ++m) {
         size_t pos = t.empty() ? 0 : s.pick(t.size() + 1);
